@@ -66,6 +66,9 @@ fn hash_yuv<T: Pixel>(y: &Yuv<T>) -> u64 {
 
 struct TripleResult {
     r: [R; 10],
+    /// the same encode with the source Rgb carrying *other* labels (Linear/BT709, and sRGB/BT2020): the encoder uses
+    /// only the matrix of the target config, so the result must not depend on the source's own transfer/primaries tags
+    enc_other_tags: [R; 2],
 }
 const CONV_NAMES: [&str; 10] = [
     "Rgb::try_from(&Yuv)",
@@ -118,6 +121,10 @@ fn run_triple_ss<T: Pixel>(m: MC, p: CP, t: TC, ss: (u8, u8)) -> Result<TripleRe
                 Yuv::<T>::try_from((lin.clone(), cfg)).map(|o| hash_yuv(&o)),
                 Xyb::try_from(rgb.clone()).map(|o| hash_data(o.data())),
                 Rgb::try_from((xyb.clone(), t, p)).map(|o| hash_data(o.data())),
+            ],
+            enc_other_tags: [
+                Yuv::<T>::try_from((&Rgb::new(px.clone(), w, h, TC::Linear, CP::BT709).unwrap(), cfg)).map(|o| hash_yuv(&o)),
+                Yuv::<T>::try_from((Rgb::new(px.clone(), w, h, TC::SRGB, CP::BT2020).unwrap(), cfg)).map(|o| hash_yuv(&o)),
             ],
         }
     })
@@ -181,6 +188,15 @@ fn judge_triple(m: MC, p: CP, t: TC, u8s: bool, res: &TripleResult, base: &mut B
                     _ => {}
                 }
             }
+        }
+    }
+    for (k, other) in res.enc_other_tags.iter().enumerate() {
+        if *other != res.r[1] {
+            ev::violation(
+                "C14|depends-on-source-tags|Yuv::try_from((&Rgb,cfg))",
+                format!("encoding the same pixels with config ({m:?}, {p:?}, {t:?}) gives {:?} when the Rgb is tagged like the config but {:?} when it is tagged {}", res.r[1].as_ref().map(|_| "Ok").map_err(|e| *e), other.as_ref().map(|_| "Ok(different or same bits)").map_err(|e| *e), if k == 0 { "Linear/BT709" } else { "sRGB/BT2020" }),
+                case().set("conversion", "Yuv::try_from((&Rgb,cfg))").set("source_tags", if k == 0 { "Linear/BT709" } else { "SRGB/BT2020" }),
+            );
         }
     }
     // independence: with a standard matrix, Yuv<->Rgb does not depend on transfer or primaries
